@@ -651,16 +651,18 @@ func (ex *Exec) fmtUintAlts(st *State, v *Term, base int, upper bool) []Alt {
 			hi = pow * 10
 		}
 		ds := make([]*Term, k)
-		sum := mkBV(64, 0)
-		p := uint64(1)
 		var defs []*Term
 		for i := 0; i < k; i++ {
 			// named after the value term: formatting the same value twice yields the same digits
 			d := mkVar(fmt.Sprintf("digit.t%d.%d.%d", v64.id, k, i), SBV(8))
 			ds[i] = d
 			defs = append(defs, mkCmp(OpUle, d, mkBV(8, 9)))
-			sum = mkBin(OpAdd, sum, mkBin(OpMul, mkZext(d, 64), mkBV(64, p)))
-			p *= 10
+		}
+		// Horner form, most significant digit first: exactly the term a decimal
+		// parser (v = v*10 + digit) builds, so decode(format(v)) is syntactically v's definition
+		sum := mkZext(ds[k-1], 64)
+		for i := k - 2; i >= 0; i-- {
+			sum = mkBin(OpAdd, mkBin(OpMul, sum, mkBV(64, 10)), mkZext(ds[i], 64))
 		}
 		if k > 1 {
 			defs = append(defs, mkCmp(OpUle, mkBV(8, 1), ds[k-1]))
